@@ -11,7 +11,7 @@ use std::borrow::Cow;
 
 use crate::{
     ast::{self, support, AstNode, SyntaxNode},
-    NodeOrToken, TokenText,
+    NodeOrToken, TokenText, T,
 };
 
 use super::ForStmt;
@@ -196,50 +196,78 @@ impl ast::IfStmt {
         }
     }
 
+    /// The branch of the `if` statement that follows `after`: the closing paren of the
+    /// condition for the true branch, the `else` keyword for the false branch. The branch is
+    /// the first child node after that token, either a curly-delimited block or a single
+    /// statement.
+    fn branch_after(&self, after: crate::SyntaxKind) -> Option<BlockOrStmt> {
+        let mut seen = false;
+        for element in self.syntax().children_with_tokens() {
+            match element {
+                NodeOrToken::Token(token) => {
+                    if seen && token.kind() == T![else] {
+                        // No true branch at all; do not mistake the false branch for it.
+                        return None;
+                    }
+                    if token.kind() == after {
+                        seen = true;
+                    }
+                }
+                NodeOrToken::Node(node) => {
+                    if seen {
+                        if let Some(block) = ast::BlockExpr::cast(node.clone()) {
+                            return Some(BlockOrStmt::BlockExpr(block));
+                        }
+                        return ast::Stmt::cast(node).map(BlockOrStmt::Stmt);
+                    }
+                }
+            }
+        }
+        None
+    }
+
     pub fn then_branch_block(&self) -> Option<ast::BlockExpr> {
-        match support::children(self.syntax()).nth(1)? {
-            ast::Expr::BlockExpr(block) => Some(block),
-            _ => None,
+        match self.branch_after(T![')'])? {
+            BlockOrStmt::BlockExpr(block) => Some(block),
+            BlockOrStmt::Stmt(_) => None,
         }
     }
 
-    // Hmm. Not sure why this is not `nth(1)`. (It is equivalent to `nth(0)`.)
     pub fn then_branch_stmt(&self) -> Option<ast::Stmt> {
-        support::child(&self.syntax)
+        match self.branch_after(T![')'])? {
+            BlockOrStmt::Stmt(stmt) => Some(stmt),
+            BlockOrStmt::BlockExpr(_) => None,
+        }
     }
 
     // This is the `if` body, corresponding to the condition evaluating true.
     pub fn true_body_block_or_stmt(&self) -> BlockOrStmt {
-        if let Some(body) = self.then_branch_block() {
-            BlockOrStmt::BlockExpr(body)
-        } else if let Some(stmt) = self.then_branch_stmt() {
-            BlockOrStmt::Stmt(stmt)
-        } else {
-            panic!("Error in oq3_syntax");
+        match self.branch_after(T![')']) {
+            Some(body) => body,
+            None => panic!("Error in oq3_syntax"),
         }
     }
 
     // Return `Some` if the else branch is present and is a curly-delimited block.
     pub fn else_branch_block(&self) -> Option<ast::BlockExpr> {
-        match support::children(self.syntax()).nth(2)? {
-            ast::Expr::BlockExpr(block) => Some(block),
-            _ => None,
+        match self.branch_after(T![else])? {
+            BlockOrStmt::BlockExpr(block) => Some(block),
+            BlockOrStmt::Stmt(_) => None,
         }
     }
 
     // Return `Some` if the else branch is present and is a single statement.
     pub fn else_branch_stmt(&self) -> Option<ast::Stmt> {
-        support::child(&self.syntax)
+        match self.branch_after(T![else])? {
+            BlockOrStmt::Stmt(stmt) => Some(stmt),
+            BlockOrStmt::BlockExpr(_) => None,
+        }
     }
 
     // This is the `else` body, corresponding to the condition evaluating false.
     // If there is no `else` body, return `None`.
     pub fn false_body_block_or_stmt(&self) -> Option<BlockOrStmt> {
-        if let Some(body) = self.else_branch_block() {
-            Some(BlockOrStmt::BlockExpr(body))
-        } else {
-            self.else_branch_stmt().map(BlockOrStmt::Stmt)
-        }
+        self.branch_after(T![else])
     }
 
     // FIXME: this may have supported more than what is above.
